@@ -13,6 +13,7 @@ package main
 //                      by any error that wraps the driver's error.
 
 import (
+	"database/sql"
 	"encoding/json"
 	"fmt"
 	"math/rand"
@@ -20,6 +21,8 @@ import (
 	"sort"
 	"strings"
 	"sync"
+
+	"gorm.io/gorm"
 )
 
 var (
@@ -663,18 +666,33 @@ func (cr *c04Runner) stats(c *c04Case, o *c04Obs) {
 	}
 }
 
-// c04ModelRes: when the value injected into COMMIT is the raw sentinel sql.ErrTxDone (EK = 1) the model's `inj k` of a failed
-// COMMIT and a genuine `txDone` are the same Go value: both sides are compared as "txDone"
+// c04ModelRes: identities of the model whose Go value in this run is a SHARED sentinel are read the way the real side reads
+// them: a failed COMMIT's `inj k` as "txDone" (EK 1: raw sql.ErrTxDone, the value database/sql produces itself) or "cfault"
+// (EK 2-5: one sentinel for every failed COMMIT; the trace pins which one); a `user t` whose value is raw sql.ErrTxDone /
+// gorm.ErrInvalidTransaction as "txDone" / "invalidTx"
 func c04ModelRes(c *c04Case, o *c04Obs, m map[string]interface{}) {
-	if c.EK%c04NCommitErrKinds != 1 {
-		return
-	}
 	res, _ := m["res"].([]interface{})
+	ek := c.EK % c04NCommitErrKinds
 	for i, a := range res {
 		var k int
-		if s, ok := a.(string); ok {
-			if _, e := fmt.Sscanf(s, "inj%d", &k); e == nil && k < len(o.Trace) && o.Trace[k] == "C!" {
+		var t int64
+		s, ok := a.(string)
+		if !ok {
+			continue
+		}
+		if _, e := fmt.Sscanf(s, "inj%d", &k); e == nil && k < len(o.Trace) && o.Trace[k] == "C!" {
+			if ek == 1 {
 				res[i] = "txDone"
+			} else if ek >= 2 && ek <= 5 {
+				res[i] = "cfault"
+			}
+		}
+		if _, e := fmt.Sscanf(s, "user%d", &t); e == nil {
+			switch o.exec.userVals[t] {
+			case error(sql.ErrTxDone):
+				res[i] = "txDone"
+			case error(gorm.ErrInvalidTransaction):
+				res[i] = "invalidTx"
 			}
 		}
 	}
